@@ -1,6 +1,6 @@
 #!/bin/bash
 # false-alarm sweep: every quick check at several VERIF_SEED values on the current tree; prints one line per run
 cd "$(dirname "$0")/.." && make setup >/dev/null 2>&1
-for seed in ${SEEDS:-2 3 4 5 6}; do for p in C01 C06 C07 C08 C09 C12 C14 C17 C18 C19; do
+for seed in ${SEEDS:-2 3 4 5 6}; do for p in ${PROPS:-C01 C06 C07 C08 C09 C12 C14 C17 C18 C19}; do
   out=$(VERIF_SEED=$seed bin/check $p --no-evidence 2>&1); rc=$?; echo "seed=$seed rc=$rc $(echo "$out" | tail -1)"; [ $rc -ne 0 ] && echo "$out" | grep -E "VIOLATION|violation|MACHINERY" | head -5
 done; done
